@@ -373,6 +373,11 @@ func panicSignature(msg string) string {
 			out = out[:i] + "interface {} is T" + out[i+j:]
 		}
 	}
+	if i := strings.Index(out, "value of type "); i >= 0 {
+		if j := strings.Index(out[i:], " is not assignable"); j >= 0 {
+			out = out[:i] + "value of type T" + out[i+j:]
+		}
+	}
 	if i := strings.Index(out, "uncomparable type "); i >= 0 {
 		if j := strings.Index(out[i:], " @ "); j >= 0 {
 			out = out[:i] + "uncomparable type T" + out[i+j:]
@@ -475,7 +480,7 @@ func renderCase(cfg engineCfg, src string, env map[string]any) string {
 	return runCaseTimed(cfg, src, env, caseHardLimit).Res
 }
 
-const caseHardLimit = 12 * time.Second
+const caseHardLimit = 8 * time.Second
 
 // ---- time budget ("in time proportional to the loops and ranges the template spells out") ----
 
